@@ -26,7 +26,7 @@ func MustParseDate(s string) Date {
 func ParseDate(s string) (Date, error) {
 	if s == "" {
 		return Date{}, fmt.Errorf("blank date string")
-	} else if date, err := time.ParseInLocation("2006-01-02", s, time.Local); err != nil {
+	} else if date, err := parseLocalDate("2006-01-02", s); err != nil {
 		return Date{}, err
 	} else {
 		return Date(date), nil
@@ -35,9 +35,34 @@ func ParseDate(s string) (Date, error) {
 
 // Utility function to explicitly construct a Date from year, month and day.
 func ToDate(year int, month time.Month, day int) Date {
-	date := time.Date(year, month, day, 0, 0, 0, 0, time.Local)
+	return Date(startOfDay(year, month, day))
+}
 
-	return Date(date)
+// Returns local midnight of the calendar day or - on the days a timezone transition skips local
+// midnight (e.g. 2022-09-11 in America/Santiago), for which time.Date returns an instant on the
+// previous day - the first whole hour that does fall on the day.
+func startOfDay(year int, month time.Month, day int) time.Time {
+	midnight := time.Date(year, month, day, 0, 0, 0, 0, time.Local)
+
+	if y, m, d := midnight.AddDate(0, 0, 1).Date(); midnight.Hour() != 0 && y == year && m == month && d == day {
+		for h := 1; h < 24; h++ {
+			t := time.Date(year, month, day, h, 0, 0, 0, time.Local)
+			if y, m, d := t.Date(); y == year && m == month && d == day {
+				return t
+			}
+		}
+	}
+
+	return midnight
+}
+
+// Parses a date-only string as the start of that calendar day in the local timezone.
+func parseLocalDate(layout, s string) (time.Time, error) {
+	if date, err := time.Parse(layout, s); err != nil {
+		return time.Time{}, err
+	} else {
+		return startOfDay(date.Date()), nil
+	}
 }
 
 // Returns true if the date is the zero value.
@@ -145,7 +170,7 @@ func (d *Date) UnmarshalUT0311L0x(bytes []byte) (any, error) {
 		}
 	}
 
-	if date, err := time.ParseInLocation("20060102", decoded, time.Local); err != nil {
+	if date, err := parseLocalDate("20060102", decoded); err != nil {
 		return &Date{}, nil
 	} else {
 		v := Date(date)
@@ -175,7 +200,7 @@ func (d *Date) UnmarshalJSON(bytes []byte) error {
 		return nil
 	}
 
-	date, err := time.ParseInLocation("2006-01-02", s, time.Local)
+	date, err := parseLocalDate("2006-01-02", s)
 	if err != nil {
 		return err
 	}
